@@ -248,6 +248,10 @@ pub const POSIX_STRINGS: &[&str] = &[
     "<+14>-14",
     "FOO25BAR24,M5.2.1,M8.3.5",
     "LMT-0:00:51LST-1:00:51,M4.1.0/1,M9.5.6/3",
+    // gap and fold that straddle midnight
+    "EST5EDT,M3.2.0/23:30,M11.1.0/0:30",
+    "<-01>1<+00>,M3.5.0/23:15,M10.5.0/0:45",
+    "AAA-3BBB-5,M4.1.6/22:30,M9.5.0/1",
 ];
 
 /// POSIX rules that are legal but hostile: the daylight period is shorter than the clock shift
